@@ -39,7 +39,7 @@ TECHNIQUE = "Lean 4 proof (induction over lists / fuel-indexed DFS invariant) + 
 # dtype widths (chain_id U4, ins_code U1, res_name U5), incl. values that differ only in the last characters.
 CHAINS = ["A", "B", "C", "AA", "", "AAAA", "AAAB", "AAA", "AB"]
 INS = ["", "A", "B", "a"]
-NAMES = ["ALA", "GLY", "HOH", "LIG", "A1LU6", "A1LU7", "A1LU", "A1L", "DA", "A", "GLYX", "GLYY"]
+NAMES = ["ALA", "GLY", "HOH", "LIG", "A1LU6", "A1LU7", "A1LU", "A1L", "DA", "A", "GLYX", "GLYY", "U", "AU"]
 FNS = ["sum", "max", "len", "first", "minmax"]
 XFNS = ["mean0", "sum0", "half", "anypos", "minmaxmean",     # result dtype differs from the data dtype
         "sumall", "maxall", "minall",                          # np.sum/np.max/np.min without axis: scalar per segment
@@ -261,6 +261,22 @@ def _gen_atoms(rng):
             elif step < 0.75:
                 a, b = rng.choice(similar)               # same id, name differing only in the 4th/5th character
                 name = b if name == a else a
+            elif step < 0.79:
+                # same res_id, different (chain, ins, name) whose concatenation chain+ins+name is the SAME string:
+                # ins 'A' + name 'U' -> ins '' + name 'AU';  chain 'A' + ins 'A' -> chain 'AA' + ins ''
+                if rng.random() < 0.5:
+                    ins, name = rng.choice([((1, 12), (0, 13)), ((0, 13), (1, 12))])[0 if (ins, name) != (1, 12) else 1]
+                    if atoms and (atoms[-1][2], atoms[-1][3]) not in ((1, 12), (0, 13)):
+                        for a in atoms[::-1]:
+                            if a[0] != chain_tok or a[1] != res_id:
+                                break
+                            a[2], a[3] = (0, 13) if (ins, name) == (1, 12) else (1, 12)
+                else:
+                    for a in atoms[::-1]:
+                        if a[0] != chain_tok or a[1] != res_id:
+                            break
+                        a[0], a[2] = 0, 1                 # chain 'A', ins 'A'
+                    chain_tok, ins = 3, 0                 # chain 'AA', ins ''
             elif step < 0.85:
                 res_id -= rng.choice([1, 2, 7])          # decrement: a chain start without chain id change
                 hetero = rng.choice([0, 1, hetero])
@@ -522,6 +538,8 @@ def corpus():
             mods=[[1, [0, 2, 0, 0, 0]], [4, [1, 2, 0, 0, 0]]], spell=list(IDX_SPELLINGS), dspell=list(DATA_SPELLINGS),
             applyx=[{"fn": "sumall", "kind": "i", "cols": 2, "data": list(range(10))},
                     {"fn": "mean0", "kind": "f", "cols": 3, "data": list(range(15))}]),
+        # adjacent residues whose concatenated labels chain+ins+name coincide although the annotations differ
+        _mk([[0, 5, 1, 12], [0, 5, 1, 12], [0, 5, 0, 13], [0, 7, 1, 0], [3, 7, 0, 0], [3, 7, 0, 0]], idx=[0, 2, 3, 5]),
         # residue names / chain ids that differ only in the 4th/5th (4th) character
         _mk([[5, 1, 0, 4, 1], [5, 1, 0, 5, 1], [6, 1, 0, 5, 1], [6, 1, 0, 6, 1], [6, 1, 0, 7, 1]], idx=[0, 1, 2, 3, 4]),
         # waters whose numbering restarts inside one chain id: a new chain starts at the res_id decrease
@@ -1065,6 +1083,8 @@ def _seg_check(case, atoms, arr, tag):
         ok, sp = call(f"spread_{nm}_wise", f_spread, arr, spi)
         if ok and [int(x) for x in sp] != [case["spread"][w][seg_of[i]] for i in range(n)]:
             bad(f"spread_{nm}_wise/value", f"spread = {list(map(int, sp))}")
+        if v:
+            continue        # the basic views already differ from the per-atom recomputation: report those, not follow-ups
         # ---- hardening class 3: the same indices / data in another spelling give the same answers
         exp_masks = [[seg_of[k] == seg_of[i] for k in range(n)] for i in idx]
         for sp_name in case.get("spell") or []:
@@ -1086,7 +1106,8 @@ def _seg_check(case, atoms, arr, tag):
             d2 = _spell_data(ds_name, case["data"])
             ok, got = call(f"apply_{nm}_wise[data {ds_name}]", f_apply, arr, d2, fn)
             exp = [np.asarray(fn(np.array(case["data"])[m])).tolist() for m in members]
-            if ok and got is not None and np.asarray(got).astype(float).tolist() != np.asarray(exp, dtype=float).reshape(np.asarray(got).shape).tolist():
+            if ok and got is not None and (np.asarray(got).size != np.asarray(exp, dtype=float).size or
+                                           np.asarray(got).astype(float).reshape(-1).tolist() != np.asarray(exp, dtype=float).reshape(-1).tolist()):
                 bad(f"apply_{nm}_wise/data-spelling", f"apply({case['fn']}) on {ds_name} data = {np.asarray(got).tolist()} != {exp}")
             for x in case.get("applyx") or []:
                 xd = _xdata(x, n)
